@@ -70,6 +70,7 @@ contract("msmart.frame.Frame.tobytes",
                    "0 <= self._device_type <= 255", "0 <= self._frame_type <= 255",
                    "0 <= self._protocol_version <= 255"],
          returns="frame_spec(self._device_type, self._protocol_version, self._frame_type, data)",
+         emits={"serialised": "self"},
          ensures={"length": "len(result) == len(data) + 11",
                   "checksum": "sum(result[1:]) % 256 == 0"},
          raises={})
